@@ -402,6 +402,14 @@ func (s *segment) ReadAt(p []byte, off int64) (n int, err error) {
 	return s.log.ReadAt(p, off)
 }
 
+// IsReplaced returns true if the segment was swapped for its compacted copy
+// by the cleaner. A replaced segment can no longer be read.
+func (s *segment) IsReplaced() bool {
+	s.RLock()
+	defer s.RUnlock()
+	return s.replaced
+}
+
 func (s *segment) notifyWaiters() {
 	for r, ch := range s.waiters {
 		close(ch)
